@@ -2,6 +2,7 @@
    call raises (as the property states); proofs in Proofs/ExecLive.v, ExecSafe.v, ExecMeasure.v. *)
 From Coq Require Import List Bool Arith.
 From EL Require Import Model.Exec Model.ExecInv Proofs.ExecLiveCor Proofs.ExecMeasure.
+From EL Require Import Model.StepExec Model.DepExec Model.LiveSpec Proofs.DepSafe Proofs.DepLiveCor.
 Import ListNotations.
 
 (* every number of workers >= 1, every program of submit / cancel / result / shutdown(wait,
@@ -41,3 +42,23 @@ Theorem C02_counter_invariant :
     nofail c -> 1 <= nworkers c -> wf_prog n prog -> reach c (init n prog) s -> inv_nofail c s = true.
 Proof. exact nofail_inv. Qed.
 Print Assumptions C02_counter_invariant.
+
+(* ---- the dependency resolver in front of a block-allocation executor (Model/DepExec.v,
+   Proofs/DepLive.v): every program whose calls may take futures of earlier calls as inputs ---- *)
+(* when the resolver system has come to rest every future handed out is done, including the calls
+   that were waiting for other futures; and no call is left on the wait list once the resolver has
+   begun to shut the inner executor down *)
+Theorem C02_resolver_all_done_at_rest :
+  forall c n prog d k,
+    dinner c = IBlock k -> 1 <= k -> (forall i, xraises (dx c) i = false) ->
+    wf_prog n prog -> wf_deps c n -> dreach c (dinit n prog) d ->
+    denabled c d = [] ->
+    forall i, In i (subm (dbase d)) -> fdone (getf (dbase d) i) = true.
+Proof. intros c n prog d k H1 H2 H3 H4 H5 H6 H7. exact (proj1 (proj2 (dep_rest c n prog d k H1 H2 H3 H4 H5 H6 H7))). Qed.
+Print Assumptions C02_resolver_all_done_at_rest.
+
+Theorem C02_wait_list_drained_before_inner_shutdown :
+  forall c n prog d,
+    wf_prog n prog -> dreach c (dinit n prog) d -> r_in_inner_shutdown d = true -> rwait d = [].
+Proof. exact wait_list_empty_at_inner_shutdown. Qed.
+Print Assumptions C02_wait_list_drained_before_inner_shutdown.
